@@ -125,6 +125,7 @@ void object_arr_dim_delete(object_arr_dim * dv);
 
 void object_arr_dim_mult(unsigned int dims, object_arr_dim * dv,
                          unsigned int * elems);
+char object_arr_dim_fits(unsigned int dims, object_arr_dim * dv);
 unsigned int object_arr_dim_addr(unsigned int dims, object_arr_dim * dv,
                                  object_arr_dim * addr, int * oobounds);
 object_arr_dim * object_arr_dim_copy(unsigned int dims, object_arr_dim * value);
